@@ -3,9 +3,10 @@
    [Print Assumptions].  The model objects are the bi_<name> functions of BuiltinsAgg.v, the
    transcription of the corresponding arms of BuiltInFunction::call (blots-core/src/functions.rs),
    tied to the code by the C15 correspondence streams (checks/c15.py). *)
-From Coq Require Import ZArith String List Bool Floats.SpecFloat Permutation.
+From Coq Require Import ZArith String List Bool Floats.SpecFloat Permutation Reals.
+From Flocq Require Import Core.Zaux Core.Raux Core.Defs IEEE754.BinarySingleNaN.
 Require Import Blots.Num Blots.gen.Builtins Blots.Ast Blots.Value Blots.Outcome Blots.BuiltinsAgg
-  Blots.proofs.Aggregates Blots.proofs.AggPercentile Blots.proofs.AggPanics.
+  Blots.proofs.Aggregates Blots.proofs.AggPercentile Blots.proofs.AggPanics Blots.proofs.AggRounding.
 Import ListNotations.
 Open Scope Z_scope.
 
@@ -336,3 +337,66 @@ Proof. exact fixed_on_known. Qed.
 Check C15_fixed_on_known : forall a args, known_C15 a args = true ->
   bi_agg_fixed a args = Ok (VNum nnan) \/ (a = APercentile /\ bi_agg_fixed a args = Err).
 Print Assumptions C15_fixed_on_known.
+
+(* ---------------------------------------------------------------- "up to rounding" *)
+(* R_of x is the real value of a double (Flocq's SF2R), u = 2^-53, finv x = a genuine finite
+   double.  rsum / rabs_sum / rprod are the exact real sum, sum of magnitudes and product.
+   sum: Higham's bound for recursive summation, under "no partial sum overflows"
+   (partial_finite, a decidable condition on the model's own partial sums; addition needs no
+   underflow condition).  prod: relative error (1+u)^n - 1 under prod_ok = no partial product
+   overflows and no exact partial product can fall in the subnormal range (mul_safe: read off
+   the exponents) or a factor is zero. *)
+Theorem C15_sum_rounding_bound : forall l, l <> [] ->
+  forallb finv l = true -> partial_finite nnzero l = true ->
+  (Rabs (SF2R radix2 (fold_sum l) - rsum l) <= ((1 + u) ^ (length l - 1) - 1) * rabs_sum l)%R.
+Proof. exact sum_rounding_bound. Qed.
+Check C15_sum_rounding_bound : forall l, l <> [] ->
+  forallb finv l = true -> partial_finite nnzero l = true ->
+  (Rabs (SF2R radix2 (fold_sum l) - rsum l) <= ((1 + u) ^ (length l - 1) - 1) * rabs_sum l)%R.
+Print Assumptions C15_sum_rounding_bound.
+
+Theorem C15_prod_rounding_bound : forall l,
+  forallb finv l = true -> prod_ok n1 l = true ->
+  (Rabs (SF2R radix2 (fold_prod l) - rprod l) <= ((1 + u) ^ length l - 1) * Rabs (rprod l))%R.
+Proof. exact prod_rounding_bound. Qed.
+Check C15_prod_rounding_bound : forall l,
+  forallb finv l = true -> prod_ok n1 l = true ->
+  (Rabs (SF2R radix2 (fold_prod l) - rprod l) <= ((1 + u) ^ length l - 1) * Rabs (rprod l))%R.
+Print Assumptions C15_prod_rounding_bound.
+
+(* permutation invariance of sum / prod up to rounding: two orders differ by at most twice the bound *)
+Theorem C15_sum_perm_rounding : forall l l', Permutation l l' -> l <> [] ->
+  forallb finv l = true -> partial_finite nnzero l = true -> partial_finite nnzero l' = true ->
+  (Rabs (SF2R radix2 (fold_sum l) - SF2R radix2 (fold_sum l'))
+   <= 2 * (((1 + u) ^ (length l - 1) - 1) * rabs_sum l))%R.
+Proof. exact sum_perm_rounding. Qed.
+Check C15_sum_perm_rounding : forall l l', Permutation l l' -> l <> [] ->
+  forallb finv l = true -> partial_finite nnzero l = true -> partial_finite nnzero l' = true ->
+  (Rabs (SF2R radix2 (fold_sum l) - SF2R radix2 (fold_sum l'))
+   <= 2 * (((1 + u) ^ (length l - 1) - 1) * rabs_sum l))%R.
+Print Assumptions C15_sum_perm_rounding.
+
+Theorem C15_prod_perm_rounding : forall l l', Permutation l l' ->
+  forallb finv l = true -> prod_ok n1 l = true -> prod_ok n1 l' = true ->
+  (Rabs (SF2R radix2 (fold_prod l) - SF2R radix2 (fold_prod l'))
+   <= 2 * (((1 + u) ^ length l - 1) * Rabs (rprod l)))%R.
+Proof. exact prod_perm_rounding. Qed.
+Check C15_prod_perm_rounding : forall l l', Permutation l l' ->
+  forallb finv l = true -> prod_ok n1 l = true -> prod_ok n1 l' = true ->
+  (Rabs (SF2R radix2 (fold_prod l) - SF2R radix2 (fold_prod l'))
+   <= 2 * (((1 + u) ^ length l - 1) * Rabs (rprod l)))%R.
+Print Assumptions C15_prod_perm_rounding.
+
+Example rounding_hyp_satisfiable :
+  let l := [nb 0x3fb999999999999a (* 0.1 *); nb 0x3fc999999999999a (* 0.2 *); nb 0xc008000000000000 (* -3 *)] in
+  forallb finv l = true /\ partial_finite nnzero l = true /\ prod_ok n1 l = true.
+Proof. vm_compute. repeat split. Qed.
+
+(* Kept but NOT proved: avg "up to rounding" (avg = fl(sum / n) is proved exactly above; a bound
+   |avg - exact mean| additionally needs the division's underflow analysis).  Decided on the
+   implementation by the exact-rational search of checks/c15.py (avg = fl(sum/n) bit for bit,
+   and sum within the bound). *)
+Definition C15_avg_rounding_full : Prop := forall l, l <> [] ->
+  forallb finv l = true -> partial_finite nnzero l = true ->
+  (Rabs (SF2R radix2 (ndiv (fold_sum l) (num_of_Z (Z.of_nat (length l)))) - rsum l / INR (length l))
+   <= ((1 + u) ^ length l - 1) * (rabs_sum l / INR (length l)) + bpow radix2 (-1075))%R.
